@@ -54,3 +54,10 @@ impl Iterator for Rng {
         Some(self.random())
     }
 }
+
+#[cfg(abasic_verif)]
+impl Rng {
+    pub(crate) fn verif_seed(&self) -> u64 {
+        self.seed
+    }
+}
